@@ -140,7 +140,18 @@ def iso_order(tier, seed):
             "cases": n, "detail": repr(bad[:3])}
 
 
+def numpy_axioms(tier, seed):
+    """runs native/validate_numpy.py under /venv/bin/python (numpy lives there)"""
+    import subprocess
+    p = subprocess.run(["/venv/bin/python", os.path.join(os.path.dirname(os.path.dirname(os.path.abspath(__file__))), "native", "validate_numpy.py"), tier, str(seed)],
+                       capture_output=True, text=True)
+    lines = [l for l in p.stdout.splitlines() if l.startswith("{")]
+    if p.returncode != 0 or not lines:
+        return {"name": "numpy axioms", "ok": False, "cases": 0, "detail": (p.stderr or p.stdout)[-500:]}
+    return json.loads(lines[-1])
+
+
 if __name__ == "__main__":
     which, tier, seed = sys.argv[1], sys.argv[2], int(sys.argv[3])
-    fn = {"calendar": calendar_vs_datetime, "z3cal": z3_vs_calmodel, "extmodel": extmodel_vs_calmodel, "isoorder": iso_order}[which]
+    fn = {"calendar": calendar_vs_datetime, "z3cal": z3_vs_calmodel, "extmodel": extmodel_vs_calmodel, "isoorder": iso_order, "numpy": numpy_axioms}[which]
     print(json.dumps(fn(tier, seed)))
